@@ -344,6 +344,9 @@ theorem decodeLong_encodeLong (x : Int) : decodeLong (encodeLong x) = x := by
 
 
 
+/-! ## one lemma per opcode -/
+
+section opcodes
 attribute [local simp] NONE NEWTRUE NEWFALSE BININT1 BININT2 BININT LONG1 LONG4 BINFLOAT BINUNICODE
   SHORT_BINBYTES BINBYTES EMPTY_LIST APPEND APPENDS MARK EMPTY_TUPLE TUPLE1 TUPLE2 TUPLE3 TUPLE
   EMPTY_DICT SETITEM SETITEMS GLOBAL NEWOBJ BUILD REDUCE BINPUT LONG_BINPUT BINGET LONG_BINGET PROTO STOP
@@ -516,6 +519,10 @@ theorem step_GLOBAL_cfset (r : Bs) (st : MState) :
 
 
 
+end opcodes
+
+/-! ## scalars round-trip -/
+
 theorem step_saveLong (i : Int) (h : (encodeLong i).length < 2 ^ 32) (r : Bs) (st : MState) :
     step (saveLong i ++ r) st = some (r, st.push (.val (.int i))) := by
   unfold saveLong
@@ -666,5 +673,658 @@ theorem encF_mono (H : Bs → Bs) : ∀ (f : Nat) (v : PyVal) (m : Memo), m.next
       have := seqKV_mono _ ih (sortOn Prod.fst (itemsOf H .fixed (encF H .fixed f) items)) { m with next := m.next + 1 }
       simp only at this
       omega
+
+
+
+/-! ## sequences of items -/
+
+/-- Running `b` pushes `out` (top first) and turns the memo `mm` into `mm'`. -/
+def Part (b : Bs) (out : List SV) (mm mm' : List SV) : Prop :=
+  ∀ rest stk, Steps (b ++ rest, ⟨stk, mm⟩) (rest, ⟨out ++ stk, mm'⟩)
+
+inductive Parts : List Bs → List (List SV) → List SV → List SV → Prop
+  | nil (mm : List SV) : Parts [] [] mm mm
+  | cons {b : Bs} {o : List SV} {bs : List Bs} {os : List (List SV)} {mm mm1 mm2 : List SV} :
+      Part b o mm mm1 → Parts bs os mm1 mm2 → Parts (b :: bs) (o :: os) mm mm2
+
+theorem Parts.length_eq {bs os mm mm'} (h : Parts bs os mm mm') : bs.length = os.length := by
+  induction h with
+  | nil _ => rfl
+  | cons _ _ ih => simp [ih]
+
+theorem Parts.run {bs os mm mm'} (h : Parts bs os mm mm') :
+    ∀ rest stk, Steps (bs.flatten ++ rest, ⟨stk, mm⟩) (rest, ⟨os.reverse.flatten ++ stk, mm'⟩) := by
+  induction h with
+  | nil _ => intro rest stk; exact .refl _
+  | @cons b o bs os mm mm1 mm2 hp _ ih =>
+    intro rest stk
+    have h1 := hp (bs.flatten ++ rest) stk
+    have h2 := ih rest (o ++ stk)
+    simp only [List.flatten_cons, List.append_assoc, List.reverse_cons, List.flatten_append,
+      List.flatten_nil, List.append_nil] at h1 h2 ⊢
+    exact h1.trans h2
+
+theorem Parts.split {bs os mm mm'} (h : Parts bs os mm mm') (n : Nat) :
+    ∃ mid, Parts (bs.take n) (os.take n) mm mid ∧ Parts (bs.drop n) (os.drop n) mid mm' := by
+  induction h generalizing n with
+  | nil mm => exact ⟨mm, by simpa using Parts.nil mm, by simpa using Parts.nil mm⟩
+  | @cons b o bs os mm mm1 mm2 hp hps ih =>
+    cases n with
+    | zero => exact ⟨mm, by simpa using Parts.nil mm, by simpa using Parts.cons hp hps⟩
+    | succ n =>
+      obtain ⟨mid, h1, h2⟩ := ih n
+      exact ⟨mid, by simpa using Parts.cons hp h1, by simpa using h2⟩
+
+theorem Parts.nil_inv {os mm mm'} (h : Parts [] os mm mm') : os = [] ∧ mm' = mm := by
+  cases h; exact ⟨rfl, rfl⟩
+
+theorem flatten_reverse_vals (vs : List PyVal) :
+    ((vs.map fun v => [SV.val v]).reverse).flatten = vs.reverse.map SV.val := by
+  induction vs with
+  | nil => rfl
+  | cons v vs ih => simp [ih]
+
+theorem flatten_reverse_kvs (kvs : List (PyVal × PyVal)) :
+    ((kvs.map fun kv => [SV.val kv.2, SV.val kv.1]).reverse).flatten = (flatKV kvs).reverse.map SV.val := by
+  induction kvs with
+  | nil => rfl
+  | cons kv kvs ih => simp [ih, flatKV]
+
+/-- One pass of the `_batch_appends` loop body. -/
+def chunkOf (one many : Nat) (tmp : List Bs) : Bs :=
+  if tmp.length > 1 then MARK :: (tmp.flatten ++ [many])
+  else if tmp.length = 1 then tmp.flatten ++ [one]
+  else []
+
+theorem batchF_succ (one many fuel : Nat) (items : List Bs) :
+    batchF one many (fuel + 1) items =
+      chunkOf one many (items.take BATCHSIZE) ++
+        (if (items.take BATCHSIZE).length < BATCHSIZE then [] else batchF one many fuel (items.drop BATCHSIZE)) := rfl
+
+theorem chunk_appends {tmp : List Bs} {vt : List PyVal} {mm mid : List SV}
+    (h : Parts tmp (vt.map fun v => [SV.val v]) mm mid) (l0 : List PyVal) (R : Bs) (stk : List SV) :
+    Steps (chunkOf APPEND APPENDS tmp ++ R, ⟨.val (.list l0) :: stk, mm⟩) (R, ⟨.val (.list (l0 ++ vt)) :: stk, mid⟩) := by
+  have hlen := h.length_eq
+  simp only [List.length_map] at hlen
+  unfold chunkOf
+  split
+  · rename_i hgt
+    have h1 := h.run (APPENDS :: R) (.mark :: .val (.list l0) :: stk)
+    rw [flatten_reverse_vals] at h1
+    simp only [List.cons_append, List.append_assoc, List.nil_append]
+    refine (Steps.one (step_MARK _ _)).trans (h1.trans (Steps.one ?_))
+    exact step_APPENDS _ _ _ _ _
+  · rename_i hngt
+    split
+    · rename_i h1len
+      have h1 := h.run (APPEND :: R) (.val (.list l0) :: stk)
+      rw [flatten_reverse_vals] at h1
+      obtain ⟨v, rfl⟩ : ∃ v, vt = [v] := by
+        cases vt with
+        | nil => rw [h1len] at hlen; simp at hlen
+        | cons v vt' =>
+          cases vt' with
+          | nil => exact ⟨v, rfl⟩
+          | cons _ _ => rw [h1len] at hlen; simp at hlen
+      simp only [List.append_assoc, List.cons_append, List.nil_append]
+      refine h1.trans (Steps.one ?_)
+      exact step_APPEND _ _ _ _ _
+    · rename_i hn1
+      have : tmp = [] := by
+        cases tmp with
+        | nil => rfl
+        | cons _ t => simp only [List.length_cons] at hngt hn1; omega
+      subst this
+      obtain ⟨ho, hm⟩ := h.nil_inv
+      have : vt = [] := by simpa using ho
+      subst this; subst hm
+      simp
+      exact .refl _
+
+theorem batch_appends : ∀ (fuel : Nat) (bs : List Bs) (vs : List PyVal) (mm mm' : List SV) (l0 : List PyVal),
+    Parts bs (vs.map fun v => [SV.val v]) mm mm' → bs.length / BATCHSIZE + 1 ≤ fuel →
+    ∀ rest stk, Steps (batchF APPEND APPENDS fuel bs ++ rest, ⟨.val (.list l0) :: stk, mm⟩)
+      (rest, ⟨.val (.list (l0 ++ vs)) :: stk, mm'⟩)
+  | 0, _, _, _, _, _, _, hf => (Nat.not_succ_le_zero _ hf).elim
+  | fuel + 1, bs, vs, mm, mm', l0, h, hf => by
+    intro rest stk
+    obtain ⟨mid, h1, h2⟩ := h.split BATCHSIZE
+    rw [← List.map_take] at h1
+    rw [← List.map_drop] at h2
+    have hlen := h.length_eq
+    simp only [List.length_map] at hlen
+    rw [batchF_succ, List.append_assoc]
+    refine (chunk_appends h1 l0 _ stk).trans ?_
+    split
+    · rename_i hlt
+      have hb : bs.drop BATCHSIZE = [] := by
+        simp only [List.length_take] at hlt
+        apply List.drop_eq_nil_of_le; omega
+      rw [hb] at h2
+      obtain ⟨ho, hm⟩ := h2.nil_inv
+      have hv : vs.drop BATCHSIZE = [] := by simpa using ho
+      have : vs.take BATCHSIZE = vs := by
+        have := List.take_append_drop BATCHSIZE vs
+        rw [hv, List.append_nil] at this; exact this
+      rw [this, hm]
+      exact .refl _
+    · rename_i hge
+      simp only [List.length_take] at hge
+      have hfu : (bs.drop BATCHSIZE).length / BATCHSIZE + 1 ≤ fuel := by
+        simp only [List.length_drop, BATCHSIZE] at *
+        omega
+      have := batch_appends fuel _ _ mid mm' (l0 ++ vs.take BATCHSIZE) h2 hfu rest stk
+      rw [List.append_assoc, List.take_append_drop] at this
+      exact this
+
+theorem chunk_setitems {tmp : List Bs} {vt : List (PyVal × PyVal)} {mm mid : List SV}
+    (h : Parts tmp (vt.map fun kv => [SV.val kv.2, SV.val kv.1]) mm mid) (d0 : List (PyVal × PyVal)) (R : Bs)
+    (stk : List SV) :
+    Steps (chunkOf SETITEM SETITEMS tmp ++ R, ⟨.val (.dict d0) :: stk, mm⟩) (R, ⟨.val (.dict (d0 ++ vt)) :: stk, mid⟩) := by
+  have hlen := h.length_eq
+  simp only [List.length_map] at hlen
+  unfold chunkOf
+  split
+  · rename_i hgt
+    have h1 := h.run (SETITEMS :: R) (.mark :: .val (.dict d0) :: stk)
+    rw [flatten_reverse_kvs] at h1
+    simp only [List.cons_append, List.append_assoc, List.nil_append]
+    refine (Steps.one (step_MARK _ _)).trans (h1.trans (Steps.one ?_))
+    exact step_SETITEMS _ _ _ _ _
+  · rename_i hngt
+    split
+    · rename_i h1len
+      have h1 := h.run (SETITEM :: R) (.val (.dict d0) :: stk)
+      obtain ⟨kv, rfl⟩ : ∃ kv, vt = [kv] := by
+        cases vt with
+        | nil => rw [h1len] at hlen; simp at hlen
+        | cons v vt' =>
+          cases vt' with
+          | nil => exact ⟨v, rfl⟩
+          | cons _ _ => rw [h1len] at hlen; simp at hlen
+      simp only [List.append_assoc, List.cons_append, List.nil_append, List.map_cons, List.map_nil,
+        List.reverse_cons, List.reverse_nil, List.flatten_cons, List.flatten_nil, List.append_nil] at h1 ⊢
+      refine h1.trans (Steps.one ?_)
+      exact step_SETITEM _ _ _ _ _ _
+    · rename_i hn1
+      have : tmp = [] := by
+        cases tmp with
+        | nil => rfl
+        | cons _ t => simp only [List.length_cons] at hngt hn1; omega
+      subst this
+      obtain ⟨ho, hm⟩ := h.nil_inv
+      have : vt = [] := by simpa using ho
+      subst this; subst hm
+      simp
+      exact .refl _
+
+theorem batch_setitems : ∀ (fuel : Nat) (bs : List Bs) (vs : List (PyVal × PyVal)) (mm mm' : List SV)
+    (d0 : List (PyVal × PyVal)),
+    Parts bs (vs.map fun kv => [SV.val kv.2, SV.val kv.1]) mm mm' → bs.length / BATCHSIZE + 1 ≤ fuel →
+    ∀ rest stk, Steps (batchF SETITEM SETITEMS fuel bs ++ rest, ⟨.val (.dict d0) :: stk, mm⟩)
+      (rest, ⟨.val (.dict (d0 ++ vs)) :: stk, mm'⟩)
+  | 0, _, _, _, _, _, _, hf => (Nat.not_succ_le_zero _ hf).elim
+  | fuel + 1, bs, vs, mm, mm', d0, h, hf => by
+    intro rest stk
+    obtain ⟨mid, h1, h2⟩ := h.split BATCHSIZE
+    rw [← List.map_take] at h1
+    rw [← List.map_drop] at h2
+    have hlen := h.length_eq
+    simp only [List.length_map] at hlen
+    rw [batchF_succ, List.append_assoc]
+    refine (chunk_setitems h1 d0 _ stk).trans ?_
+    split
+    · rename_i hlt
+      have hb : bs.drop BATCHSIZE = [] := by
+        simp only [List.length_take] at hlt
+        apply List.drop_eq_nil_of_le; omega
+      rw [hb] at h2
+      obtain ⟨ho, hm⟩ := h2.nil_inv
+      have hv : vs.drop BATCHSIZE = [] := by simpa using ho
+      have : vs.take BATCHSIZE = vs := by
+        have := List.take_append_drop BATCHSIZE vs
+        rw [hv, List.append_nil] at this; exact this
+      rw [this, hm]
+      exact .refl _
+    · rename_i hge
+      simp only [List.length_take] at hge
+      have hfu : (bs.drop BATCHSIZE).length / BATCHSIZE + 1 ≤ fuel := by
+        simp only [List.length_drop, BATCHSIZE] at *
+        omega
+      have := batch_setitems fuel _ _ mid mm' (d0 ++ vs.take BATCHSIZE) h2 hfu rest stk
+      rw [List.append_assoc, List.take_append_drop] at this
+      exact this
+
+
+
+/-! ## the encoder's streams run to their value -/
+
+/-- The machine's memo mirrors the pickler's: same length, and the classes sit where the
+pickler remembers them. -/
+def MemoOK (m : Memo) (mm : List SV) : Prop :=
+  mm.length = m.next ∧ ∀ c i, m.cls c = some i → i < 2 ^ 32 ∧ mm[i]? = some (.cls c)
+
+/-- From any mirrored memo (and while fewer than 2^32 objects are memoised — beyond that the real
+pickler raises), the stream `e x m` pushes `out` and leaves a mirrored memo. -/
+def Runs (e : PyVal → Memo → Bs × Memo) (out : PyVal) (x : PyVal) : Prop :=
+  ∀ m mm, MemoOK m mm → (e x m).2.next ≤ 2 ^ 32 →
+    ∃ mm', Part (e x m).1 [.val out] mm mm' ∧ MemoOK (e x m).2 mm'
+
+theorem MemoOK.memoize {m : Memo} {mm : List SV} (h : MemoOK m mm) (top : SV) :
+    MemoOK (memoize m).2 (mm ++ [top]) := by
+  obtain ⟨h1, h2⟩ := h
+  refine ⟨by simp [JoblibModel.HashStream.memoize, h1], ?_⟩
+  intro c i hc
+  have hc' : m.cls c = some i := by cases c <;> simpa [JoblibModel.HashStream.memoize, Memo.cls] using hc
+  obtain ⟨hi, hg⟩ := h2 c i hc'
+  refine ⟨hi, ?_⟩
+  obtain ⟨hlt, _⟩ := List.getElem?_eq_some_iff.mp hg
+  rw [List.getElem?_append_left hlt]; exact hg
+
+theorem steps_put (idx : Nat) (top : SV) (r : Bs) (s mm : List SV) :
+    Steps (put idx ++ r, ⟨top :: s, mm⟩) (r, ⟨top :: s, mm ++ [top]⟩) :=
+  Steps.one (step_put r s mm idx top)
+
+theorem steps_MARK (r : Bs) (s mm : List SV) : Steps (MARK :: r, ⟨s, mm⟩) (r, ⟨.mark :: s, mm⟩) :=
+  Steps.one (step_MARK r ⟨s, mm⟩)
+theorem steps_EMPTY_LIST (r : Bs) (s mm : List SV) :
+    Steps (EMPTY_LIST :: r, ⟨s, mm⟩) (r, ⟨.val (.list []) :: s, mm⟩) := Steps.one (step_EMPTY_LIST r ⟨s, mm⟩)
+theorem steps_EMPTY_TUPLE (r : Bs) (s mm : List SV) :
+    Steps (EMPTY_TUPLE :: r, ⟨s, mm⟩) (r, ⟨.val (.tuple []) :: s, mm⟩) := Steps.one (step_EMPTY_TUPLE r ⟨s, mm⟩)
+theorem steps_EMPTY_DICT (r : Bs) (s mm : List SV) :
+    Steps (EMPTY_DICT :: r, ⟨s, mm⟩) (r, ⟨.val (.dict []) :: s, mm⟩) := Steps.one (step_EMPTY_DICT r ⟨s, mm⟩)
+theorem steps_saveStr (x : Bs) (h : x.length < 2 ^ 32) (r : Bs) (s mm : List SV) :
+    Steps (saveStr x ++ r, ⟨s, mm⟩) (r, ⟨.val (.str x) :: s, mm⟩) := Steps.one (step_saveStr x h r ⟨s, mm⟩)
+
+section runs
+variable (e : PyVal → Memo → Bs × Memo) (canon : PyVal → PyVal)
+variable (hm : ∀ x m, m.next ≤ (e x m).2.next)
+include hm
+
+theorem seqM_parts : ∀ (l : List PyVal), (∀ x ∈ l, Runs e (canon x) x) → ∀ m mm, MemoOK m mm →
+    (seqM e l m).2.next ≤ 2 ^ 32 →
+    ∃ mm', Parts (seqM e l m).1 (l.map fun x => [SV.val (canon x)]) mm mm' ∧ MemoOK (seqM e l m).2 mm'
+  | [], _, m, mm, ok, _ => ⟨mm, .nil mm, ok⟩
+  | x :: xs, hl, m, mm, ok, hb => by
+    simp only [seqM] at hb ⊢
+    have hb1 : (e x m).2.next ≤ 2 ^ 32 := Nat.le_trans (seqM_mono e hm xs _) hb
+    obtain ⟨mm1, p1, ok1⟩ := hl x List.mem_cons_self m mm ok hb1
+    obtain ⟨mm2, p2, ok2⟩ := seqM_parts xs (fun y hy => hl y (List.mem_cons_of_mem _ hy)) _ mm1 ok1 hb
+    exact ⟨mm2, .cons p1 p2, ok2⟩
+
+theorem seqKV_parts : ∀ (l : List (PyVal × PyVal)),
+    (∀ kv ∈ l, Runs e (canon kv.1) kv.1 ∧ Runs e (canon kv.2) kv.2) → ∀ m mm, MemoOK m mm →
+    (seqKV e l m).2.next ≤ 2 ^ 32 →
+    ∃ mm', Parts (seqKV e l m).1 (l.map fun kv => [SV.val (canon kv.2), SV.val (canon kv.1)]) mm mm' ∧
+      MemoOK (seqKV e l m).2 mm'
+  | [], _, m, mm, ok, _ => ⟨mm, .nil mm, ok⟩
+  | (k, v) :: xs, hl, m, mm, ok, hb => by
+    simp only [seqKV] at hb ⊢
+    have hb2 : (e v (e k m).2).2.next ≤ 2 ^ 32 := Nat.le_trans (seqKV_mono e hm xs _) hb
+    have hb1 : (e k m).2.next ≤ 2 ^ 32 := Nat.le_trans (hm v _) hb2
+    obtain ⟨mm1, p1, ok1⟩ := (hl (k, v) List.mem_cons_self).1 m mm ok hb1
+    obtain ⟨mm2, p2, ok2⟩ := (hl (k, v) List.mem_cons_self).2 _ mm1 ok1 hb2
+    obtain ⟨mm3, p3, ok3⟩ := seqKV_parts xs (fun y hy => hl y (List.mem_cons_of_mem _ hy)) _ mm2 ok2 hb
+    refine ⟨mm3, .cons ?_ p3, ok3⟩
+    intro rest stk
+    have s1 := p1 ((e v (e k m).2).1 ++ rest) stk
+    have s2 := p2 rest (.val (canon k) :: stk)
+    simp only [List.append_assoc, List.cons_append, List.nil_append] at s1 s2 ⊢
+    exact s1.trans s2
+
+theorem saveList_run (l : List PyVal) (hl : ∀ x ∈ l, Runs e (canon x) x) :
+    ∀ m mm, MemoOK m mm → (saveList e l m).2.next ≤ 2 ^ 32 →
+    ∃ mm', Part (saveList e l m).1 [.val (.list (l.map canon))] mm mm' ∧ MemoOK (saveList e l m).2 mm' := by
+  intro m mm ok hb
+  simp only [saveList] at hb ⊢
+  obtain ⟨mm', ps, ok'⟩ := seqM_parts e canon hm l hl (memoize m).2 (mm ++ [.val (.list [])])
+    (ok.memoize _) hb
+  refine ⟨mm', ?_, ok'⟩
+  intro rest stk
+  have hps : Parts (seqM e l (memoize m).2).1 ((l.map canon).map fun v => [SV.val v]) (mm ++ [.val (.list [])]) mm' := by
+    rw [List.map_map]; exact ps
+  have s3 := batch_appends _ _ _ _ _ [] hps (Nat.le_refl _) rest stk
+  simp only [List.cons_append, List.append_assoc, List.nil_append, memoize, batch] at s3 ⊢
+  exact (steps_EMPTY_LIST _ _ _).trans ((steps_put _ _ _ _ _).trans s3)
+
+theorem saveTuple_run (l : List PyVal) (hl : ∀ x ∈ l, Runs e (canon x) x) :
+    ∀ m mm, MemoOK m mm → (saveTuple e l m).2.next ≤ 2 ^ 32 →
+    ∃ mm', Part (saveTuple e l m).1 [.val (.tuple (l.map canon))] mm mm' ∧ MemoOK (saveTuple e l m).2 mm' := by
+  intro m mm ok hb
+  by_cases hemp : l.isEmpty = true
+  · have : l = [] := by simpa using hemp
+    subst this
+    simp only [saveTuple, List.isEmpty_nil, if_true, List.map_nil]
+    refine ⟨mm, ?_, ok⟩
+    intro rest stk
+    exact steps_EMPTY_TUPLE _ _ _
+  · simp only [saveTuple, hemp, Bool.false_eq_true, if_false] at hb ⊢
+    have hb0 : (seqM e l m).2.next ≤ 2 ^ 32 := by
+      split at hb <;> simp only [memoize] at hb <;> omega
+    obtain ⟨mm1, ps, ok1⟩ := seqM_parts e canon hm l hl m mm ok hb0
+    have hps : Parts (seqM e l m).1 ((l.map canon).map fun v => [SV.val v]) mm mm1 := by
+      rw [List.map_map]; exact ps
+    by_cases hlen : l.length ≤ 3
+    · simp only [hlen, if_true]
+      refine ⟨mm1 ++ [.val (.tuple (l.map canon))], ?_, ok1.memoize _⟩
+      intro rest stk
+      have run := hps.run ((TUPLE1 + (l.length - 1)) :: (put (seqM e l m).2.next ++ rest)) stk
+      rw [flatten_reverse_vals] at run
+      simp only [List.append_assoc, List.cons_append, memoize, List.nil_append] at run ⊢
+      refine run.trans (Steps.trans (Steps.one ?_) (steps_put (seqM e l m).2.next _ rest stk mm1))
+      match l, hemp, hlen with
+      | [a], _, _ => exact step_TUPLE1 _ _ _ _
+      | [a, b], _, _ => exact step_TUPLE2 _ _ _ _ _
+      | [a, b, c], _, _ => exact step_TUPLE3 _ _ _ _ _ _
+      | [], h, _ => simp at h
+      | _ :: _ :: _ :: _ :: _, _, h => simp at h
+    · simp only [hlen, if_false]
+      refine ⟨mm1 ++ [.val (.tuple (l.map canon))], ?_, ok1.memoize _⟩
+      intro rest stk
+      have run := hps.run (TUPLE :: (put (seqM e l m).2.next ++ rest)) (.mark :: stk)
+      rw [flatten_reverse_vals] at run
+      simp only [List.append_assoc, List.cons_append, memoize, List.nil_append] at run ⊢
+      exact (steps_MARK _ _ _).trans (run.trans ((Steps.one (step_TUPLE _ _ _ _)).trans (steps_put _ _ _ _ _)))
+
+omit hm in
+theorem saveClass_run (c : Cls) (hc : c ≠ .fz) (m : Memo) (mm : List SV) (ok : MemoOK m mm)
+    (hb : (saveClass c m).2.next ≤ 2 ^ 32) :
+    ∃ mm', Part (saveClass c m).1 [.cls c] mm mm' ∧ MemoOK (saveClass c m).2 mm' := by
+  unfold saveClass at hb ⊢
+  split
+  · rename_i i hi
+    obtain ⟨h1, h2⟩ := ok.2 c i hi
+    refine ⟨mm, ?_, ok⟩
+    intro rest stk
+    exact Steps.one (step_get rest stk mm i _ h1 h2)
+  · rename_i hnone
+    simp only [hnone] at hb
+    have hnext : m.next < 2 ^ 32 := by cases c <;> simp at hb <;> omega
+    refine ⟨mm ++ [.cls c], ?_, ?_⟩
+    · intro rest stk
+      simp only [List.cons_append, List.append_assoc]
+      have hg : step (GLOBAL :: (c.name ++ (put m.next ++ rest))) ⟨stk, mm⟩
+          = some (put m.next ++ rest, (⟨stk, mm⟩ : MState).push (.cls c)) := by
+        cases c with
+        | cset => exact step_GLOBAL_cset _ _
+        | cfset => exact step_GLOBAL_cfset _ _
+        | fz => exact absurd rfl hc
+      exact (Steps.one hg).trans (steps_put _ _ _ _ _)
+    · obtain ⟨h1, h2⟩ := ok
+      refine ⟨by cases c <;> simp [h1], ?_⟩
+      intro c' i hc'
+      by_cases hcc : c' = c
+      · subst hcc
+        have : i = m.next := by cases c' <;> simp [Memo.setCls, Memo.cls] at hc' <;> omega
+        subst this
+        refine ⟨hnext, ?_⟩
+        rw [← h1]; simp
+      · have hold : m.cls c' = some i := by
+          cases c <;> cases c' <;> simp_all [Memo.setCls, Memo.cls]
+        obtain ⟨hi, hg⟩ := h2 c' i hold
+        obtain ⟨hlt, _⟩ := List.getElem?_eq_some_iff.mp hg
+        exact ⟨hi, by rw [List.getElem?_append_left hlt]; exact hg⟩
+
+theorem wrapper_run (c : Cls) (hc : c ≠ .fz) (seq : List PyVal) (hl : ∀ x ∈ seq, Runs e (canon x) x)
+    (out : PyVal)
+    (hout : ∀ r s mm, step (BUILD :: r) ⟨.val (.dict [(.str SEQUENCE, .list (seq.map canon))]) :: .obj c :: s, mm⟩
+      = some (r, ⟨.val out :: s, mm⟩)) :
+    ∀ m mm, MemoOK m mm → (wrapper e c seq m).2.next ≤ 2 ^ 32 →
+    ∃ mm', Part (wrapper e c seq m).1 [.val out] mm mm' ∧ MemoOK (wrapper e c seq m).2 mm' := by
+  intro m mm ok hb
+  simp only [wrapper] at hb ⊢
+  have hmono := saveList_mono e hm seq (memoize (memoize (saveClass c m).2).2).2
+  have hb1 : (saveClass c m).2.next ≤ 2 ^ 32 := by
+    simp only [memoize] at hmono hb; omega
+  obtain ⟨mm1, p1, ok1⟩ := saveClass_run c hc m mm ok hb1
+  have ok2 := ok1.memoize (.obj c)
+  have ok3 := ok2.memoize (.val (.dict []))
+  generalize hmm3 : mm1 ++ [SV.obj c] ++ [SV.val (.dict [])] = mm3 at ok3
+  obtain ⟨mm4, p4, ok4⟩ := saveList_run e canon hm seq hl _ _ ok3 hb
+  refine ⟨mm4, ?_, ok4⟩
+  intro rest stk
+  have s1 := p1 (EMPTY_TUPLE :: NEWOBJ :: ((memoize (saveClass c m).2).1 ++ EMPTY_DICT ::
+      ((memoize (memoize (saveClass c m).2).2).1 ++ saveStr SEQUENCE ++
+        (saveList e seq (memoize (memoize (saveClass c m).2).2).2).1 ++ [SETITEM, BUILD])) ++ rest) stk
+  have s4 := p4 (SETITEM :: BUILD :: rest) (.val (.str SEQUENCE) :: .val (.dict []) :: .obj c :: stk)
+  simp only [List.append_assoc, List.cons_append, List.nil_append, memoize] at s1 s4 ⊢
+  refine s1.trans ?_
+  refine (steps_EMPTY_TUPLE _ _ _).trans ?_
+  refine (Steps.one (step_NEWOBJ _ _ _ _)).trans ?_
+  refine (steps_put _ _ _ _ _).trans ?_
+  refine (steps_EMPTY_DICT _ _ _).trans ?_
+  refine (steps_put _ _ _ _ _).trans ?_
+  rw [hmm3]
+  refine (steps_saveStr SEQUENCE (by decide) _ _ _).trans ?_
+  refine s4.trans ?_
+  refine (Steps.one (step_SETITEM _ _ _ _ _ _)).trans ?_
+  exact Steps.one (hout _ _ _)
+
+theorem dict_run (items : List (PyVal × PyVal))
+    (hl : ∀ kv ∈ items, Runs e (canon kv.1) kv.1 ∧ Runs e (canon kv.2) kv.2) :
+    ∀ m mm, MemoOK m mm → (seqKV e items (memoize m).2).2.next ≤ 2 ^ 32 →
+    ∃ mm', Part (EMPTY_DICT :: ((memoize m).1 ++ batch SETITEM SETITEMS (seqKV e items (memoize m).2).1))
+        [.val (.dict (items.map fun kv => (canon kv.1, canon kv.2)))] mm mm' ∧
+      MemoOK (seqKV e items (memoize m).2).2 mm' := by
+  intro m mm ok hb
+  obtain ⟨mm', ps, ok'⟩ := seqKV_parts e canon hm items hl (memoize m).2 (mm ++ [.val (.dict [])])
+    (ok.memoize _) hb
+  refine ⟨mm', ?_, ok'⟩
+  intro rest stk
+  have hps : Parts (seqKV e items (memoize m).2).1
+      ((items.map fun kv => (canon kv.1, canon kv.2)).map fun kv => [SV.val kv.2, SV.val kv.1])
+      (mm ++ [.val (.dict [])]) mm' := by
+    rw [List.map_map]; exact ps
+  have s3 := batch_setitems _ _ _ _ _ [] hps (Nat.le_refl _) rest stk
+  simp only [List.cons_append, List.append_assoc, List.nil_append, memoize, batch] at s3 ⊢
+  exact (steps_EMPTY_DICT _ _ _).trans ((steps_put _ _ _ _ _).trans s3)
+
+end runs
+
+
+
+/-- The fragment on which `encode` is injective: the value is at most `f` levels deep, every
+dict / set / frozenset node sorts its keys directly (never takes the digest fallback), floats are
+64-bit patterns, and nothing is too long for its 4-byte length field (beyond which the real
+pickler raises instead of producing a stream). -/
+def Plain : Nat → PyVal → Prop
+  | 0, _ => False
+  | f + 1, v =>
+    match v with
+    | .none => True
+    | .bool _ => True
+    | .int i => (encodeLong i).length < 2 ^ 32
+    | .float x => x < 2 ^ 64
+    | .str s => s.length < 2 ^ 32
+    | .bytes s => s.length < 2 ^ 32
+    | .list l => ∀ x ∈ l, Plain f x
+    | .tuple l => ∀ x ∈ l, Plain f x
+    | .set l => orderable .fixed l = true ∧ ∀ x ∈ l, Plain f x
+    | .frozenset l => orderable .fixed l = true ∧ ∀ x ∈ l, Plain f x
+    | .dict items => orderable .fixed (items.map Prod.fst) = true ∧ ∀ kv ∈ items, Plain f kv.1 ∧ Plain f kv.2
+
+/-- The canonical listing of a value: every set / frozenset / dict part in sorted order. -/
+def canonF : Nat → PyVal → PyVal
+  | 0, v => v
+  | f + 1, v =>
+    match v with
+    | .list l => .list (l.map (canonF f))
+    | .tuple l => .tuple (l.map (canonF f))
+    | .set l => .set ((sortOn id l).map (canonF f))
+    | .frozenset l => .frozenset ((sortOn id l).map (canonF f))
+    | .dict items => .dict ((sortOn Prod.fst items).map fun kv => (canonF f kv.1, canonF f kv.2))
+    | .none => .none
+    | .bool b => .bool b
+    | .int i => .int i
+    | .float x => .float x
+    | .str s => .str s
+    | .bytes s => .bytes s
+
+theorem runs_leaf (e : PyVal → Memo → Bs × Memo) (x out : PyVal)
+    (h : ∀ m, (e x m).2 = m ∧ ∀ r st, step ((e x m).1 ++ r) st = some (r, st.push (.val out))) : Runs e out x := by
+  intro m mm ok _
+  refine ⟨mm, ?_, by rw [(h m).1]; exact ok⟩
+  intro rest stk
+  exact Steps.one ((h m).2 rest ⟨stk, mm⟩)
+
+theorem exec_encF (H : Bs → Bs) : ∀ (f : Nat) (v : PyVal), Plain f v → Runs (encF H .fixed f) (canonF f v) v := by
+  intro f
+  induction f with
+  | zero => intro v h; exact absurd h (by simp [Plain])
+  | succ f ih =>
+    intro v hp
+    have hm := encF_mono H f
+    cases v with
+    | none => exact runs_leaf _ _ _ (fun m => ⟨rfl, fun r st => step_NONE r st⟩)
+    | bool b =>
+      refine runs_leaf _ _ _ (fun m => ⟨rfl, fun r st => ?_⟩)
+      cases b
+      · exact step_NEWFALSE r st
+      · exact step_NEWTRUE r st
+    | int i => exact runs_leaf _ _ _ (fun m => ⟨rfl, fun r st => step_saveLong i hp r st⟩)
+    | float x => exact runs_leaf _ _ _ (fun m => ⟨rfl, fun r st => step_saveFloat x hp r st⟩)
+    | str s => exact runs_leaf _ _ _ (fun m => ⟨rfl, fun r st => step_saveStr s hp r st⟩)
+    | bytes s => exact runs_leaf _ _ _ (fun m => ⟨rfl, fun r st => step_saveBytes s hp r st⟩)
+    | list l =>
+      intro m mm ok hb
+      exact saveList_run _ (canonF f) hm l (fun x hx => ih x (hp x hx)) m mm ok hb
+    | tuple l =>
+      intro m mm ok hb
+      exact saveTuple_run _ (canonF f) hm l (fun x hx => ih x (hp x hx)) m mm ok hb
+    | set l =>
+      intro m mm ok hb
+      obtain ⟨ho, hl⟩ := hp
+      simp only [encF, keysOf, ho, if_true] at hb ⊢
+      refine wrapper_run _ (canonF f) hm .cset (by decide) (sortOn id l)
+        (fun x hx => ih x (hl x ((sortOn_perm id l).subset hx))) _ (fun r s mm => step_BUILD_cset r s mm _) m mm ok hb
+    | frozenset l =>
+      intro m mm ok hb
+      obtain ⟨ho, hl⟩ := hp
+      simp only [encF, keysOf, ho, if_true] at hb ⊢
+      refine wrapper_run _ (canonF f) hm .cfset (by decide) (sortOn id l)
+        (fun x hx => ih x (hl x ((sortOn_perm id l).subset hx))) _ (fun r s mm => step_BUILD_cfset r s mm _) m mm ok hb
+    | dict items =>
+      intro m mm ok hb
+      obtain ⟨ho, hl⟩ := hp
+      simp only [encF, itemsOf, ho, if_true] at hb ⊢
+      exact dict_run _ (canonF f) hm (sortOn Prod.fst items)
+        (fun kv hkv => ⟨ih _ (hl kv ((sortOn_perm Prod.fst items).subset hkv)).1,
+          ih _ (hl kv ((sortOn_perm Prod.fst items).subset hkv)).2⟩) m mm ok hb
+
+/-- Running the machine on the whole stream ends, stuck on STOP, with exactly the canonical
+listing of the value on the stack. -/
+theorem exec_encode (H : Bs → Bs) (v : PyVal) (hp : Plain (depth v) v)
+    (hb : (encF H .fixed (depth v) v Memo.init).2.next ≤ 2 ^ 32) :
+    ∃ mm', Steps (encode H v, ⟨[], []⟩) ([STOP], ⟨[.val (canonF (depth v) v)], mm'⟩) := by
+  have ok : MemoOK Memo.init [] := ⟨rfl, by intro c i h; cases c <;> simp [Memo.init, Memo.cls] at h⟩
+  obtain ⟨mm', p, _⟩ := exec_encF H (depth v) v hp Memo.init [] ok hb
+  refine ⟨mm', ?_⟩
+  have s := p [STOP] []
+  unfold encode encodeV frame
+  exact (Steps.one (step_PROTO _ 3 _)).trans s
+
+/-- Injectivity of the stream on plain values: equal streams ⇒ equal canonical listings. -/
+theorem encode_inj (H : Bs → Bs) (v w : PyVal) (hv : Plain (depth v) v) (hw : Plain (depth w) w)
+    (bv : (encF H .fixed (depth v) v Memo.init).2.next ≤ 2 ^ 32)
+    (bw : (encF H .fixed (depth w) w Memo.init).2.next ≤ 2 ^ 32)
+    (h : encode H v = encode H w) : canonF (depth v) v = canonF (depth w) w := by
+  obtain ⟨m1, s1⟩ := exec_encode H v hv bv
+  obtain ⟨m2, s2⟩ := exec_encode H w hw bw
+  rw [h] at s1
+  have := Steps.final_unique s1 s2 (step_STOP _ _) (step_STOP _ _)
+  simp only [Prod.mk.injEq, MState.mk.injEq, List.cons.injEq, SV.val.injEq] at this
+  exact this.2.1.1
+
+
+
+/-! ## the canonical listing is a reordering, and keeps the constructor -/
+
+theorem reorderL_map (g : PyVal → PyVal) : ∀ (l : List PyVal), (∀ x ∈ l, Reorder x (g x)) → ReorderL l (l.map g)
+  | [], _ => .nil
+  | x :: xs, h => .cons (h x List.mem_cons_self) (reorderL_map g xs (fun y hy => h y (List.mem_cons_of_mem _ hy)))
+
+theorem reorderD_map (g : PyVal → PyVal) : ∀ (l : List (PyVal × PyVal)),
+    (∀ kv ∈ l, Reorder kv.1 (g kv.1) ∧ Reorder kv.2 (g kv.2)) → ReorderD l (l.map fun kv => (g kv.1, g kv.2))
+  | [], _ => .nil
+  | (k, v) :: xs, h => .cons (h (k, v) List.mem_cons_self).1 (h (k, v) List.mem_cons_self).2
+      (reorderD_map g xs (fun y hy => h y (List.mem_cons_of_mem _ hy)))
+
+theorem reorder_canonF : ∀ (f : Nat) (v : PyVal), Reorder v (canonF f v) := by
+  intro f
+  induction f with
+  | zero => intro v; exact Reorder.refl v
+  | succ f ih =>
+    intro v
+    cases v with
+    | none => exact .none
+    | bool b => exact .bool b
+    | int i => exact .int i
+    | float x => exact .float x
+    | str s => exact .str s
+    | bytes s => exact .bytes s
+    | list l => exact .list (reorderL_map _ l (fun x _ => ih x))
+    | tuple l => exact .tuple (reorderL_map _ l (fun x _ => ih x))
+    | set l => exact .set (reorderL_map _ l (fun x _ => ih x)) ((sortOn_perm id l).symm.map _)
+    | frozenset l => exact .frozenset (reorderL_map _ l (fun x _ => ih x)) ((sortOn_perm id l).symm.map _)
+    | dict l =>
+      exact .dict (reorderD_map _ l (fun kv _ => ⟨ih kv.1, ih kv.2⟩)) ((sortOn_perm Prod.fst l).symm.map _)
+
+/-- The Python type of a value. -/
+inductive Ty where
+  | none | bool | int | float | str | bytes | list | tuple | set | frozenset | dict
+deriving DecidableEq, Repr
+
+def tyOf : PyVal → Ty
+  | .none => .none
+  | .bool _ => .bool
+  | .int _ => .int
+  | .float _ => .float
+  | .str _ => .str
+  | .bytes _ => .bytes
+  | .list _ => .list
+  | .tuple _ => .tuple
+  | .set _ => .set
+  | .frozenset _ => .frozenset
+  | .dict _ => .dict
+
+theorem tyOf_canonF (f : Nat) (v : PyVal) : tyOf (canonF f v) = tyOf v := by
+  cases f <;> cases v <;> rfl
+
+/-- A value with no dict / set / frozenset inside: its listing is unique. -/
+def Ordered : Nat → PyVal → Prop
+  | 0, _ => True
+  | f + 1, v =>
+    match v with
+    | .list l => ∀ x ∈ l, Ordered f x
+    | .tuple l => ∀ x ∈ l, Ordered f x
+    | .set _ => False
+    | .frozenset _ => False
+    | .dict _ => False
+    | _ => True
+
+theorem map_id_of {g : PyVal → PyVal} : ∀ (l : List PyVal), (∀ x ∈ l, g x = x) → l.map g = l
+  | [], _ => rfl
+  | x :: xs, h => by
+    simp only [List.map_cons, h x List.mem_cons_self,
+      map_id_of xs (fun y hy => h y (List.mem_cons_of_mem _ hy))]
+
+theorem canonF_ordered : ∀ (f : Nat) (v : PyVal), Ordered f v → canonF f v = v := by
+  intro f
+  induction f with
+  | zero => intro v _; rfl
+  | succ f ih =>
+    intro v h
+    cases v with
+    | list l => simp only [canonF]; rw [map_id_of l (fun x hx => ih x (h x hx))]
+    | tuple l => simp only [canonF]; rw [map_id_of l (fun x hx => ih x (h x hx))]
+    | set l => exact absurd h (by simp [Ordered])
+    | frozenset l => exact absurd h (by simp [Ordered])
+    | dict l => exact absurd h (by simp [Ordered])
+    | none => rfl
+    | bool b => rfl
+    | int i => rfl
+    | float x => rfl
+    | str s => rfl
+    | bytes s => rfl
 
 end JoblibModel.HashStream
